@@ -55,6 +55,7 @@ type Server struct {
 	Port int
 
 	mu     sync.Mutex
+	wlocks map[int]*sync.Mutex // per-connection write locks (a packet is never interleaved with another)
 	conns  map[int]net.Conn
 	reqs   []*Req
 	sent   []Sent
@@ -76,7 +77,7 @@ func Listen(host string) (*Server, error) {
 	if err != nil {
 		return nil, err
 	}
-	s := &Server{L: l, Addr: l.Addr().String(), Host: host, Port: l.Addr().(*net.TCPAddr).Port, conns: map[int]net.Conn{}}
+	s := &Server{L: l, Addr: l.Addr().String(), Host: host, Port: l.Addr().(*net.TCPAddr).Port, conns: map[int]net.Conn{}, wlocks: map[int]*sync.Mutex{}}
 	go s.accept()
 	return s, nil
 }
@@ -110,6 +111,7 @@ func (s *Server) accept() {
 		id := s.nconn
 		s.nconn++
 		s.conns[id] = c
+		s.wlocks[id] = &sync.Mutex{}
 		s.events = append(s.events, ConnEvent{id, time.Now(), "accepted"})
 		s.mu.Unlock()
 		go s.serve(id, c)
@@ -211,6 +213,37 @@ func (s *Server) Reply(conn int, version int16, id int32, ret int32, desc string
 
 // WriteRaw writes arbitrary bytes on a connection.
 func (s *Server) WriteRaw(conn int, b []byte, id int32, serial int64, kind string) error {
+	s.mu.Lock()
+	wl := s.wlocks[conn]
+	s.mu.Unlock()
+	if wl != nil {
+		wl.Lock()
+		defer wl.Unlock()
+	}
+	return s.writeLocked(conn, b, id, serial, kind)
+}
+
+// WriteSplit writes b in two pieces (the first n bytes, then after gap the rest) without
+// letting any other packet in between - what a slow but correct server does.
+func (s *Server) WriteSplit(conn int, b []byte, n int, gap time.Duration, id int32, serial int64, kind string) error {
+	s.mu.Lock()
+	wl := s.wlocks[conn]
+	s.mu.Unlock()
+	if wl != nil {
+		wl.Lock()
+		defer wl.Unlock()
+	}
+	if n > len(b) {
+		n = len(b)
+	}
+	if err := s.writeLocked(conn, b[:n], id, 0, kind+"-part1"); err != nil {
+		return err
+	}
+	time.Sleep(gap)
+	return s.writeLocked(conn, b[n:], id, serial, kind)
+}
+
+func (s *Server) writeLocked(conn int, b []byte, id int32, serial int64, kind string) error {
 	s.mu.Lock()
 	c := s.conns[conn]
 	s.mu.Unlock()
